@@ -176,7 +176,9 @@ def is_trivial_text(s: str) -> bool:
 SCHEMES_VALID = ["http", "https", "ws", "wss", "ftp", "HTTP", "Https", "foo", "file", "mailto", "git+ssh", "a", "x-y.z", "svn"]
 REG_HOSTS = ["example.com", "EXAMPLE.Com", "a", "a.b.c", "xn--9ca.com", "host-1", "a_b.com", "h!$&'()*+,;=x", "sub.domain.example.org.", "1a", "a1", "localhost",
              # pct-encoded octets are legal in a reg-name; the digit-final ones look like an IP literal to a quick test
-             "a%20b1", "x%41y.z2", "node%2502", "caf%c3%a9.shop24", "a%20b", "%7euser.example"]
+             "a%20b1", "x%41y.z2", "node%2502", "caf%c3%a9.shop24", "a%20b", "%7euser.example",
+             # A-labels written in ASCII (valid, Cyrillic, invalid punycode) - case variants are produced by host()
+             "xn--mnchen-3ya.de", "www.xn--mnchen-3ya.de", "xn--80aaf8a3a.xn--j1amh", "xn--zzz", "xn--a.com"]
 IDN_HOSTS = ["é.com", "bücher.example", "例え.jp", "ЖЖ.рф", "xn--bcher-kva.example", "é", "straße.de", "ǅ.com"]
 IDN2003_HOSTS = ["a_b.é", "☃.net", "A_b.é", "😀.com", "_dmarc.é.com"]
 IPV4_HOSTS = ["127.0.0.1", "0.0.0.0", "255.255.255.255", "1.2.3.4", "10.0.0.1"]
@@ -207,6 +209,14 @@ class URLGen:
         return self.tg.plain(4)
 
     def host(self):
+        kind, h = self._host()
+        r = self.rng
+        # hosts are case-insensitive: the same name in another case must end up in the same canonical form on every route
+        if h and r.random() < 0.15:
+            h = r.choice([str.upper, str.swapcase, str.title])(h)
+        return kind, h
+
+    def _host(self):
         r = self.rng
         k = r.random()
         if k < 0.40:
